@@ -21,6 +21,8 @@ def run(ctx):
     n_hist = 6 if ctx.quick else 40
     for i in range(n_hist):
         workloads.zset_history(ctx, srv, workloads.ZSetGen(ctx.rnd), n=600 if ctx.quick else 3000, label='zrand%d' % i)
+    # integer positions written in spellings the reference refuses ('+5', '007', '-0'): open finding lenient_int
+    workloads.lenient_int_history(ctx, srv, 'zsets')
     ctx.extra_cov['distinct_cases'] = len(paths) + n_hist
 
 
